@@ -27,12 +27,13 @@ Qed.
 Print Assumptions c02_holds.
 
 (* histories (proofs/ScanHistory.v: the controller's memory is threaded from scan to scan within one lifetime, every
-   other input of every scan is arbitrary): after a scan whose SetDesiredCapacity was accepted, every later scan whose
+   other input of every scan is arbitrary): after a scan whose increase the cloud completed (SetDesiredCapacity accepted,
+   or — fleet mode — CreateFleet accepted and every AttachInstances call accepted: increase_done), every later scan whose
    instant is less than the cool-down after it issues no write of any kind *)
 Theorem c02_histories : forall o st pre i mid,
   0 <= o_cool o <= max_int64 ->
   let st_i := state_after o st pre in
-  set_desired_ok (r_calls (scan_at o st_i i)) = true ->
+  increase_done (r_calls (scan_at o st_i i)) = true ->
   (forall j, In j mid -> 0 <= si_now j - si_now i < o_cool o) ->
   forall q, In q (run_hist o (next_state (scan_at o st_i i)) mid) -> writes (r_calls (snd q)) = [].
 Proof. exact c02_history. Qed.
